@@ -131,10 +131,11 @@ Definition sel_loo_quad (c : sel_case) : Q :=
 Definition sel_loo_var (c : sel_case) : qvec :=
   map Qred (col_to_vec (@loo_var_s ListOps (s_n c) (sel_Li c))).
 
-Definition check_sel_obligations (E : exec) (c : sel_case) : list bool :=
+(* `o` is `sel_outputs E c`; a parameter so that Matrix/SelectionRepr.v can evaluate the model once
+   per case and compare it with the outputs of several calls *)
+Definition check_sel_obligations_on (E : exec) (c : sel_case) (o : sel_out) : list bool :=
   let n := s_n c in
   let A := s_A c in let L := s_L c in
-  let o := sel_outputs E c in
   let diagL := sel_diagL c in
   let pd := fold_right (fun x acc => x * acc) 1 diagL in
   let dt := sel_det c in
@@ -156,6 +157,9 @@ Definition check_sel_obligations (E : exec) (c : sel_case) : list bool :=
             && close_q (t_l c) (o_ml c) (o_mlg c) && close_q (t_l c) (o_loo c) (o_loog c);
     (* 8 *) close_q (t_d c * Qabs dt) dt (pd * pd) && negb (Qle_bool dt 0);
     (* 9 *) if s_cross c then out_eqb (sel_outputs ListExec c) o else true ].   (* `if`: branches are lazy under vm_compute *)
+
+Definition check_sel_obligations (E : exec) (c : sel_case) : list bool :=
+  check_sel_obligations_on E c (sel_outputs E c).
 
 Definition check_sel (E : exec) (c : sel_case) : list nat :=
   failing_obligations 0 (check_sel_obligations E c).
